@@ -83,6 +83,12 @@ def gen_tree(rng: random.Random, git: bool = True, links: bool = True, toolignor
     if toolignore and rng.random() < 0.5:
         where = rng.choice([t.root, t.root.parent, t.root] + t.dirs[:2])
         (where / ".flowmarkignore").write_text("\n".join(rng.choice(TI_LINES) for _ in range(rng.randint(1, 3))) + "\n")
+        # a second, NEARER ignore file without any active rule (empty, blank lines, comments): the upward search stops at the
+        # first file it finds, so the rules of the farther one must not apply below it
+        if rng.random() < 0.35:
+            nearer = [d for d in [t.root] + t.dirs[:4] if where in d.parents]
+            if nearer:
+                (rng.choice(nearer) / ".flowmarkignore").write_text(rng.choice(["", "\n", "# nothing here\n", "  \n# c\n\n"]))
     t.links = []
     if links:
         alld = [t.root] + t.dirs
